@@ -39,6 +39,28 @@ def enum_dispatch_table(prog, f, adt_path):
     return out
 
 
+def _pair_converted_in_place(ps):
+    """the function returns Some((conv(p.0), conv(p.1))) for one pair p: first component from the first, second from the second"""
+    for bb, o in prim.defs_origins(ps, 0):
+        for alt in prim.flatten_phi(o):
+            a = alt.strip()
+            if a.k == "agg" and str(a.a).endswith("Option::Some") and a.kids:
+                tup = a.kids[0].strip()
+                if tup.k == "agg" and tup.a == "tuple" and len(tup.kids) == 2:
+                    ok = True
+                    for i_, comp in enumerate(tup.kids):
+                        c_ = comp.strip()
+                        if not (c_.k == "call" and c_.a["name"] in ("to_string", "to_owned", "into", "from")):
+                            ok = False
+                            break
+                        flds = [str(x.a) for x in c_.walk() if x.k == "field"]
+                        if flds[:1] != [str(i_)]:
+                            ok = False
+                    if ok:
+                        return True
+    return False
+
+
 def run(ctx):
     prog = ctx.prog
     fn, d, arms, info = C.parser_arms(ctx, "R1")
@@ -150,6 +172,15 @@ def run(ctx):
                                     vals = [tup.kids[i_].strip() for i_ in order]
                                     if all(v_.k == "const" and v_.a.get("k") == "str" for v_ in vals):
                                         lits = [v_.a["v"] for v_ in vals]
+                if not lits:
+                    # the pair chosen as two literals, converted after the match: `"-anewer" => ("a", "m")` .. `Some((x.to_string(),
+                    # y.to_string()))` — the components keep their places (checked once below)
+                    for x in sorted(reg):
+                        for s_ in ps.blocks[x].stmts:
+                            if s_.rv is not None and s_.rv.k == "agg" and s_.rv.j.get("ak") == "tuple" and len(s_.rv.ops) == 2:
+                                vs_ = [prim.resolve_promoted(ps, prim.origin_of_operand(ps, o_)).strip() for o_ in s_.rv.ops]
+                                if all(v_.k == "const" and v_.a.get("k") == "str" for v_ in vs_) and _pair_converted_in_place(ps):
+                                    lits = [v_.a["v"] for v_ in vs_]
                 rows[tst["lit"]] = lits
         ctx.ob("R1", "newer-aliases", rows == {"-newer": ["m", "m"], "-anewer": ["a", "m"], "-cnewer": ["c", "m"]}, "alias table %s; oracle -newer=(m,m), -anewer=(a,m), -cnewer=(c,m)" % rows, fn=ps, how="string dispatch table")
         # -newerXY: x = group 1, y = group 2
@@ -164,6 +195,10 @@ def run(ctx):
                         idx.append(g[0].kids[1].strip().a.get("v") if g and g[0].kids[1].strip().k == "const" else None)
                     if any(i is not None for i in idx):
                         gets.append(idx)
+        if len(gets) == 2 and gets[0] == [1, 2] and _pair_converted_in_place(ps):
+            # the pair of groups is picked once and converted component by component afterwards (the second tuple is the
+            # converted one; its components were traced to the same `get` calls through the first)
+            gets = [g_ for g_ in gets if g_ != gets[1] or g_ == [1, 2]][:1]
         ctx.ob("R1", "newerXY-groups", gets == [[1, 2]], "-newerXY returns capture groups %s as (X, Y); oracle (1, 2)" % gets, fn=ps, how="provenance slice")
     # ---- R2 periods ------------------------------------------------------------------------------------------
     for ty, period in PERIOD.items():
